@@ -137,7 +137,10 @@ func buildHistory(db objects.Store, rng *rand.Rand, o histOpts) (*history, error
 		}
 		pk := h.pk
 		if o.Rekey && rng.Intn(3) == 0 {
-			pk = []string{"id", "a"}
+			pk = []string{"id", "a"} // same order as the key id alone: same blocks, other block indices
+			if rng.Intn(2) == 0 {
+				pk = []string{"a", "id"} // a key whose columns are not the leading ones in column order
+			}
 		}
 		cols := h.cols
 		switch {
@@ -166,7 +169,7 @@ func buildHistory(db objects.Store, rng *rand.Rand, o histOpts) (*history, error
 		if o.Rekey && rng.Intn(4) == 0 {
 			// and the same rows once more under the other key, so that blocks are shared between the two tables
 			other := []string{"id", "a"}
-			if len(pk) == 2 {
+			if len(pk) == 2 && pk[0] == "id" {
 				other = h.pk
 			}
 			if _, err := ingestRows(db, h.cols, other, rows); err != nil {
